@@ -23,7 +23,9 @@ RULE = ("BFS over histories of {resource writes 1 byte / the rest, resource fini
         "DATA frame the server wrote fits the harness ledger of the stream and connection windows, is the next slice of the expected body, and "
         "the h2 client accepts the bytes. In every new canonical state a fair completion is run on the real objects: the client opens the "
         "windows (by WINDOW_UPDATE, and - when something is blocked - separately by SETTINGS alone / by a connection WINDOW_UPDATE alone where that suffices), the loop runs to quiescence: all bytes written so "
-        "far must arrive and paused producers must be resumed; then the resources finish and every body must arrive complete, in order, ended. "
+        "far must arrive and paused producers must be resumed (and, with nothing granted at all, the loop runs until it idles: progress must "
+        "equal the granted window - written bytes may be held back and a producer stay paused only while the stream or connection window "
+        "of the ledger is exhausted); then the resources finish and every body must arrive complete, in order, ended. "
         "non-trivial = distinct canonical states in which a stream was blocked on flow control (queued data the window does not admit, a paused "
         "producer, or a window <= 0)")
 BOUNDS = {
@@ -189,6 +191,7 @@ class St:
         self.goaway = False
         self.reset = set()
         self.n_wu = self.n_set = 0
+        self.n_written = 0
         self.buf = bytearray()      # undecoded server output
         self.wire = bytearray()     # undelivered server output (whole frames)
         self.wire_frames = []
@@ -286,6 +289,7 @@ class St:
     def server_wrote(self, data):
         """Decode whole frames; ledger check for DATA at the moment the server writes it."""
         self.buf += data
+        self.n_written += 1
         buf = self.buf
         while len(buf) >= 9:
             ln = int.from_bytes(buf[0:3], "big")
@@ -448,11 +452,18 @@ class St:
         except Exception as e:  # a real reactor logs an exception from a delayed call and carries on
             self._loop_raised(e)
 
-    def run_quiet(self, limit=LOOP_LIMIT):
-        n = 0
+    def run_quiet(self, limit=LOOP_LIMIT, idle_stop=None):
+        """run the loop until nothing is scheduled (or, with idle_stop, until that many iterations in a row wrote nothing:
+        the loop polls a stream whose window is closed once per iteration for ever)"""
+        n = idle = 0
         while n < limit and self.clock.due():
+            before = self.n_written
             self.tick()
             n += 1
+            if idle_stop is not None:
+                idle = idle + 1 if self.n_written == before else 0
+                if idle >= idle_stop:
+                    break
         return n
 
     # ---- resource actions
@@ -584,7 +595,44 @@ def closure(st, mode):
         _cur[0] = None
 
 
+def _progress(st):
+    """mode 'run': nothing is granted.  The loop runs until it idles; progress must equal the window the peer has granted:
+    a stream may keep written bytes back only while its stream window or the connection window (ledger) is exhausted,
+    and a producer may stay paused only while nothing more fits."""
+    st.run_quiet(LOOP_LIMIT, idle_stop=2 * len(st.s) + 2)
+    out = list(st.bad)
+    if st.recv_exc and not st.all_done():
+        out.append(("H2Connection:dataReceived-raised:%s" % st.recv_exc.split(":")[0], st.recv_exc))
+    if out:
+        return out
+    hints = "loop_exc=%r write_exc=%r other=%r goaway=%r reset=%r due=%d" % (
+        st.loop_exc, st.write_exc, st.other_failures, st.goaway, sorted(st.reset), len(st.clock.due()))
+    for r in st.s:
+        room = min(st.ref_win[r.sid], st.ref_conn)
+        unsent = r.written - len(r.sent)
+        asleep = r.prod is not None and r.prod.paused and not r.finished
+        if room <= 0 or not (unsent > 0 or asleep):
+            continue
+        if st.loop_exc:
+            sig = _loop_sig(st)
+        elif unsent > 0:
+            act = getattr(st.srv.priority, "_active", {}).get(r.sid)
+            sig = "H2Connection:queued-data-held-back-although-window-open:%s:%s" % (
+                "written-at-closed-window" if r.wrote_closed else "written-at-open-window",
+                {True: "stream-unblocked-but-send-loop-idle", False: "stream-left-blocked-in-priority-tree"}.get(act, "?"))
+        else:
+            sig = "H2Stream:producer-left-paused-although-window-open"
+        out.append((sig, "stream %d (%s, body %d): the loop idles, the ledger still admits %d bytes (stream window %d, connection %d) but %s; "
+                    "written %d, sent %d; %s" % (
+                        r.sid, r.mode, r.size, room, st.ref_win[r.sid], st.ref_conn,
+                        "%d written bytes are held back" % unsent if unsent > 0 else "the producer is still paused with nothing queued",
+                        r.written, len(r.sent), hints)))
+    return out
+
+
 def _closure(st, mode):
+    if mode == "run":
+        return _progress(st)
     how = {"wu": "WINDOW_UPDATE", "conn": "WINDOW_UPDATE", "set": "SETTINGS-window-increase"}[mode]
     todo = sum(r.size - len(r.sent) for r in st.s)
     if mode == "wu":
@@ -810,6 +858,7 @@ def run_shard(shard, tier, seed):
         if st.all_done():
             stats.outcome("all-bodies-complete")
         if blocked:
+            judge(build(cfg, hist), hist, "run")
             judge(build(cfg, hist), hist, "set")
             if conn_only(st):
                 stats.outcome("only-connection-window-blocks")
